@@ -9,27 +9,31 @@
    emitted once.  The harness renders the tokens through the public string interface (parse_vf).     *)
 EXTENDS Integers, Sequences, FiniteSets, TLC, Emit
 
-CONSTANTS Dim, MaxTok, MaxStack, Rich     \* Rich = FALSE: core alphabet (exhaustive runs); TRUE: full alphabet
+CONSTANTS Dim, MaxTok, MaxStack, Rich,    \* Rich = FALSE: core alphabet (exhaustive runs); TRUE: full alphabet
+          Poly                              \* TRUE: polynomial fragment only (C01): no builtin functions, no division,
+                                            \* degree bookkeeping <<du, dv, df>> (trial, test, coefficient fields)
 
-VARIABLES stack, prog, hasv, hasu, done
-vars == <<stack, prog, hasv, hasu, done>>
+VARIABLES stack, prog, hasv, hasu, done, dg
+vars == <<stack, prog, hasv, hasu, done, dg>>
 
 \* leaves: token |-> type
 LeafS == {"u", "v", "ux", "vy", "c", "two"} \cup
-         (IF Rich THEN {"uy", "vx", "uxp", "vyp", "uxx", "uxy", "half", "three", "hpar", "hx", "gw"} ELSE {})
+         (IF Rich THEN {"uy", "vx", "uxp", "vyp", "uxx", "uxy", "half", "three", "hpar", "hx"} \cup (IF Poly THEN {} ELSE {"gw"})
+          ELSE {})
 LeafD == {"f"} \cup (IF Rich THEN {"f2", "cD", "twoD"} ELSE {})
 LeafV == {"gu", "gv"} \cup (IF Rich THEN {"g", "x", "gup", "gh"} ELSE {})
-LeafM == (IF Rich THEN {"Hu", "Hv", "A", "J", "Gg"} ELSE {"A"})
+LeafM == (IF Rich THEN {"Hu", "Hv", "A", "J", "Ainv", "Jinv"} \cup (IF Poly THEN {} ELSE {"Gg"}) ELSE {"A"})
 
-UnSS == {"neg", "sin"} \cup (IF Rich THEN {"cos", "exp", "log", "sqrt", "abs", "tan", "sq", "cube"} ELSE {})
+UnSS == IF Poly THEN {"neg"} \cup (IF Rich THEN {"sq"} ELSE {})
+        ELSE {"neg", "sin"} \cup (IF Rich THEN {"cos", "exp", "log", "sqrt", "abs", "tan", "sq", "cube"} ELSE {})
 UnDD == {"negD"} \cup (IF Rich THEN {"sqD"} ELSE {})
 UnDS == {"dx0"} \cup (IF Rich THEN {"dx1", "val"} ELSE {"val"})          \* derivative / plain value of a D
 UnDV == {"gradD"}
-UnVS == IF Rich THEN {"norm", "v0", "v1"} ELSE {"v0"}
+UnVS == IF Rich THEN (IF Poly THEN {} ELSE {"norm"}) \cup {"v0", "v1"} ELSE {"v0"}
 UnMS == {"det", "tr"} \cup (IF Rich THEN {"m01"} ELSE {})
-UnMM == IF Rich THEN {"T", "inv"} ELSE {"T"}
-BinSSS == {"+", "*"} \cup (IF Rich THEN {"-", "/"} ELSE {})
-BinDDD == {"*D"} \cup (IF Rich THEN {"+D", "-D", "/D"} ELSE {})
+UnMM == IF Rich /\ ~Poly THEN {"T", "inv"} ELSE {"T"}
+BinSSS == {"+", "*"} \cup (IF Rich THEN {"-"} \cup (IF Poly THEN {} ELSE {"/"}) ELSE {})
+BinDDD == {"*D"} \cup (IF Rich THEN {"+D", "-D"} \cup (IF Poly THEN {} ELSE {"/D"}) ELSE {})
 BinVVS == {"inner"}
 BinVVV == IF Rich THEN {"v+", "v-"} \cup (IF Dim = 3 THEN {"cross"} ELSE {}) ELSE {}
 BinSVV == IF Rich THEN {"sv*"} ELSE {}
@@ -38,10 +42,24 @@ BinMMM == IF Rich THEN {"matmat", "m+"} ELSE {}
 BinMMS == IF Rich THEN {"minner"} ELSE {}
 BinVVM == IF Rich THEN {"outer"} ELSE {}
 
+\* degree bookkeeping <<du, dv, df>>
+LeafDeg(t) == IF t \in {"u", "ux", "uy", "uxp", "uxx", "uxy", "gu", "gup", "Hu"} THEN <<1, 0, 0>>
+              ELSE IF t \in {"v", "vx", "vy", "vyp", "gv", "Hv"} THEN <<0, 1, 0>>
+              ELSE IF t \in {"hpar", "f", "f2", "g", "x"} THEN <<0, 0, 1>>
+              ELSE <<0, 0, 0>>
+DMax(a, b) == [q \in 1..3 |-> IF a[q] > b[q] THEN a[q] ELSE b[q]]
+DSum(a, b) == [q \in 1..3 |-> a[q] + b[q]]
+DTimes(n, a) == [q \in 1..3 |-> n * a[q]]
+UnDeg(t, a) == IF t \in {"sq", "sqD"} THEN DTimes(2, a) ELSE IF t = "cube" THEN DTimes(3, a)
+               ELSE IF t = "det" THEN DTimes(Dim, a) ELSE a
+BinDeg(t, a, b) == IF t \in {"+", "-", "+D", "-D", "v+", "v-", "m+"} THEN DMax(a, b) ELSE DSum(a, b)
+DegOK(a) == ~Poly \/ (a[1] <= 1 /\ a[2] <= 1 /\ a[3] <= 1)
+DTop(n) == dg[Len(dg) - n + 1]
+
 Top(n) == stack[Len(stack) - n + 1]
 Pop(n) == SubSeq(stack, 1, Len(stack) - n)
 
-Init == stack = <<>> /\ prog = <<>> /\ hasv = FALSE /\ hasu = FALSE /\ done = FALSE
+Init == stack = <<>> /\ prog = <<>> /\ hasv = FALSE /\ hasu = FALSE /\ done = FALSE /\ dg = <<>>
 
 Push(t, ty) ==
   /\ ~done /\ Len(prog) < MaxTok /\ Len(stack) < MaxStack
@@ -49,25 +67,30 @@ Push(t, ty) ==
   /\ prog' = Append(prog, t)
   /\ hasv' = (hasv \/ t \in {"v", "vx", "vy", "vyp", "gv", "Hv"})
   /\ hasu' = (hasu \/ t \in {"u", "ux", "uy", "uxp", "uxx", "uxy", "gu", "gup", "Hu"})
+  /\ dg' = Append(dg, LeafDeg(t))
   /\ UNCHANGED done
 
 Un(t, from, to) ==
   /\ ~done /\ Len(prog) < MaxTok /\ Len(stack) >= 1 /\ Top(1) = from
   /\ stack' = Append(Pop(1), to)
   /\ prog' = Append(prog, t)
+  /\ DegOK(UnDeg(t, DTop(1)))
+  /\ dg' = Append(SubSeq(dg, 1, Len(dg) - 1), UnDeg(t, DTop(1)))
   /\ UNCHANGED <<hasv, hasu, done>>
 
 Bin(t, a, b, to) ==       \* a is the deeper operand
   /\ ~done /\ Len(prog) < MaxTok /\ Len(stack) >= 2 /\ Top(2) = a /\ Top(1) = b
   /\ stack' = Append(Pop(2), to)
   /\ prog' = Append(prog, t)
+  /\ DegOK(BinDeg(t, DTop(2), DTop(1)))
+  /\ dg' = Append(SubSeq(dg, 1, Len(dg) - 2), BinDeg(t, DTop(2), DTop(1)))
   /\ UNCHANGED <<hasv, hasu, done>>
 
 Finish ==
   /\ ~done /\ stack = <<"S">> /\ hasv
   /\ done' = TRUE
-  /\ Emit("FORM", [tokens |-> prog, dim |-> Dim, bilinear |-> hasu])
-  /\ UNCHANGED <<stack, prog, hasv, hasu>>
+  /\ Emit("FORM", [tokens |-> prog, dim |-> Dim, bilinear |-> hasu, deg |-> dg[1]])
+  /\ UNCHANGED <<stack, prog, hasv, hasu, dg>>
 
 Next ==
   \/ \E t \in LeafS : Push(t, "S")
@@ -98,4 +121,6 @@ Spec == Init /\ [][Next]_vars
 TypeOK == /\ \A i \in 1..Len(stack) : stack[i] \in {"S", "D", "V", "M"}
           /\ Len(stack) <= MaxStack /\ Len(prog) <= MaxTok
           /\ done => (stack = <<"S">> /\ hasv)
+          /\ Len(dg) = Len(stack)
+          /\ Poly => \A i \in 1..Len(dg) : DegOK(dg[i])
 =============================================================================
